@@ -883,13 +883,33 @@ class Executor:
                 sv.family = None
             if ty.kind == "list":
                 seq = self.heap_get(st, "$seq")
-                self.heap_set(st, "$seq", z3.Store(seq, r2, seq[sv.t]), fresh_obj=True)
+                outer_seq = seq[sv.t]
+                lits = self.literal_seqs.get(sv.t.get_id())
+                ety_l = self.S.kinds.get(ty.name)
+                if lits is not None and isinstance(ety_l, Ty) and ety_l.kind == "list" and lits and all(
+                        z3.is_app(v) and v.decl().name() == "ref" and z3.is_const(v.arg(0)) and v.arg(0).decl().name().startswith("new_LIST")
+                        for v in lits):
+                    # a literal list of freshly built lists ([[a, b]]): the inner lists become the field's lists of kind ety_l
+                    # (same re-allocation trick as for the outer list: an identical object whose ghost role is still free)
+                    newelems = []
+                    for k_, v in enumerate(lits):
+                        ri = self.alloc(st, "LIST")
+                        seq = self.heap_get(st, "$seq")
+                        self.heap_set(st, "$seq", z3.Store(seq, ri, seq[v.arg(0)]), fresh_obj=True)
+                        st.assume(z3.And(role_of(ri) == self.rid(ety_l.name), owner_of(ri) == r2, slot_of(ri) == k_))
+                        newelems.append(Val.ref(ri))
+                    outer_seq = Empty
+                    for v in newelems:
+                        outer_seq = Append1(outer_seq, v)
+                    seq = self.heap_get(st, "$seq")
+                self.heap_set(st, "$seq", z3.Store(seq, r2, outer_seq), fresh_obj=True)
+                seq = self.heap_get(st, "$seq")
                 # element type obligation
                 ety = self.S.kinds.get(ty.name)
                 src_ety = self.list_elem_ty(sv)
                 if isinstance(ety, Ty) and (src_ety is None or repr(src_ety) != repr(ety)):
                     k = fresh("k", I)
-                    s0 = seq[sv.t]
+                    s0 = outer_seq
                     self.oblige(st, "type", f"elements-of-{name}", node,
                                 smt.forall([k], z3.Implies(z3.And(0 <= k, k < Len(s0)),
                                                           self.type_pred(ety, At(s0, k), st, "val")),
